@@ -74,6 +74,8 @@ def replay(rec, case):
     i = case["input"]
     if "bban" in i:
         check_rebuild(rec, i["cc"], i["bban"])
+    elif i["how"].endswith("hostile-registry"):
+        hostile_registry(rec, case.get("seed", 1), case.get("tier", "quick"))
     elif i["how"].endswith("|country-code-spelling"):
         from ..lib import BBAN
         a = i["args"]
@@ -201,6 +203,53 @@ def shard_rebuild(arg):
     return rec
 
 
+def hostile_registry(rec: Rec, seed, tier):
+    """Registry-based random draws in a copy of the package whose bank registry lists, for the countries with a national
+    algorithm, codes that do NOT conform nationally (random digits where a listed code embeds a check digit, e.g. Poland's
+    sort codes): what is drawn must pass the national check all the same - the digits are computed, not copied."""
+    import random
+    from ..engines.pkgcopy import PackageCopy
+    from ..oracles import reg as oreg
+    from ..oracles.core import repo_root
+    rng = random.Random(f"{seed}:C09:hostile-registry")
+    o = oracle()
+    widths = {}
+    for (c_, code) in oreg.index_by_code(oreg.load_banks()):
+        widths.setdefault(c_, set()).add(len(code))
+    rows = []
+    ccs = [cc for cc in sorted(onat.FIELD) if cc in o.table and o.positions(cc).get("bank_code")]   # countries whose digits the library computes
+    for cc in ccs:
+        a, e = o.positions(cc)["bank_code"]
+        cl = gen().classes(cc)
+        lookup = o.table[cc].get("bic_lookup_components", ["bank_code"])
+        key_w = sum(o.positions(cc)[k][1] - o.positions(cc)[k][0] for k in lookup if k in o.positions(cc))
+        for w_ in sorted({e - a, key_w} | widths.get(cc, set())):
+            for _ in range(3):
+                code = "".join(rng.choice("0123456789" if cl[min(a + i, len(cl) - 1)] == "n" else "ABCDEFGHJK") for i in range(w_))
+                rows.append({"country_code": cc, "bank_code": code, "name": "Hostile", "short_name": "H", "bic": "HOST%s2H" % cc,
+                             "primary": True})
+    with PackageCopy(repo_root(), bank_files={"hostile_national.json": rows}) as pc:
+        ops = [{"op": "random", "cc": cc, "seed": rng.randrange(10 ** 6), "use_registry": True}
+               for cc in ccs for _ in range(12 if tier == "quick" else 200)]
+        res = pc.query(ops)
+        if isinstance(res, dict):
+            rec.fail("copy_import_fails|hostile-registry", "build_total", {"cc": "", "how": "hostile-registry", "args": {}}, "imports",
+                     res["import_error"][-300:])
+            return
+        for op, r in zip(ops, res):
+            cc = op["cc"]
+            inp = {"cc": cc, "how": "random|hostile-registry", "args": {"seed": op["seed"], "use_registry": True}, "rows": [x for x in rows if x["country_code"] == cc]}
+            rec.case("hostile-registry-draw", (cc, op["seed"]))
+            if "crash" in r:
+                rec.fail(f"escape|hostile-registry|{r['crash']}", "build_total", inp, "IBAN or library error", r)
+            elif "ok" in r:
+                s_ = r["ok"]
+                if not o.accept_norm(s_) or s_[:2] != cc:
+                    rec.fail("built_invalid_iban|hostile-registry", "built_valid", inp, "valid IBAN of " + cc, s_)
+                elif onat.ref(cc, s_[4:], o.positions(cc)) is False:
+                    rec.fail(f"compute_vs_reference|{cc}|hostile-registry", "built_passes_reference", {**inp, "iban": s_}, "reference accepts", False)
+
+
 def run(ctx):
     import vlib.lib  # noqa: F401
     o = oracle()
@@ -221,5 +270,6 @@ def run(ctx):
     ctx.extra["random_success"] = {cc: ctx.rec.classes.get(f"random-success-{cc}", 0) for cc in onat.FIELD}
     from ._configs import stage as _config_stage
     _config_stage(ctx, ['national', 'generate'])
-    ctx.require_classes("generate-component-omitted", "cc-spelling", "from_components-ncd-ok", "generate-ok", "random-ok", "rebuild-rich", "rebuild",
+    hostile_registry(ctx.rec, ctx.seed, ctx.tier)
+    ctx.require_classes("hostile-registry-draw", "generate-component-omitted", "cc-spelling", "from_components-ncd-ok", "generate-ok", "random-ok", "rebuild-rich", "rebuild",
                         *[f"random-success-{cc}" for cc in onat.FIELD])
